@@ -1,0 +1,84 @@
+//go:build verif
+
+package hsms
+
+import "sync/atomic"
+
+// VerifSupervisor drives the REAL supervisor without its goroutines, so a verification harness
+// can choose the interleaving of the run loop's steps with the synchronous commits.
+//
+// The events channel is given a large capacity so inject never blocks; the harness plays the
+// run goroutine (StepNext = one iteration of run()'s receive + step) and the notifier goroutine
+// (DrainNotifications). AfterLoad, when set, runs between step()'s state.Load() and its store,
+// through the existing testHookAfterStateLoad seam.
+type VerifSupervisor struct {
+	s         *supervisor
+	Reactions [][2]ConnState
+}
+
+// VerifNewSupervisor builds a supervisor with no run()/notifier() goroutine.
+func VerifNewSupervisor() *VerifSupervisor {
+	v := &VerifSupervisor{}
+	handlers := &atomic.Pointer[[]StateChangeHandler]{}
+	v.s = newSupervisorWithEventsCap(func(prev, next ConnState) {
+		v.Reactions = append(v.Reactions, [2]ConnState{prev, next})
+	}, handlers, 1<<16)
+
+	return v
+}
+
+func (v *VerifSupervisor) CommitConnected() bool  { return v.s.CommitConnected() }
+func (v *VerifSupervisor) CommitSelected() bool   { return v.s.CommitSelected() }
+func (v *VerifSupervisor) CommitSelectLost() bool { return v.s.CommitSelectLost() }
+
+// Inject enqueues a raw event (0 tcpUp, 1 selectAccepted, 2 selectLost, 3 disconnect, 4 close, 5 t7).
+func (v *VerifSupervisor) Inject(ev uint8) { v.s.inject(fsmEvent(ev)) }
+
+// CASOnly performs only the CAS half of a commit (from -> to) and reports success; the harness
+// performs the inject half later with Inject, to open the CAS->inject window.
+func (v *VerifSupervisor) CASOnly(from, to ConnState) bool {
+	return v.s.state.CompareAndSwap(uint32(from), uint32(to))
+}
+
+// StepNext plays one iteration of run(): receive the next queued event, if any, and step it.
+// afterLoad (may be nil) runs between the state load and the store.
+func (v *VerifSupervisor) StepNext(afterLoad func()) (ev uint8, ok bool) {
+	select {
+	case e := <-v.s.events:
+		if afterLoad != nil {
+			v.s.testHookAfterStateLoad = func(fsmEvent) { afterLoad() }
+		}
+		v.s.step(e)
+		v.s.testHookAfterStateLoad = nil
+
+		return uint8(e), true
+	default:
+		return 0, false
+	}
+}
+
+func (v *VerifSupervisor) State() ConnState       { return v.s.State() }
+func (v *VerifSupervisor) LastReacted() ConnState { return v.s.lastReacted }
+func (v *VerifSupervisor) Closed() bool           { return v.s.closed }
+func (v *VerifSupervisor) Dropped() uint64        { return v.s.droppedNotify.Load() }
+func (v *VerifSupervisor) Queued() int            { return len(v.s.events) }
+func (v *VerifSupervisor) NotifyCap() int         { return cap(v.s.notify) }
+
+// DrainNotifications plays the notifier: it removes up to max buffered notifications (all if max < 0).
+func (v *VerifSupervisor) DrainNotifications(max int) [][2]ConnState {
+	var out [][2]ConnState
+	for max != 0 {
+		select {
+		case sc := <-v.s.notify:
+			out = append(out, [2]ConnState{sc.prev, sc.next})
+			max--
+		default:
+			return out
+		}
+	}
+
+	return out
+}
+
+// VerifTransition exposes the pure E37 table.
+func VerifTransition(cur ConnState, ev uint8) (ConnState, bool) { return transition(cur, fsmEvent(ev)) }
